@@ -5,6 +5,12 @@ from .stmt import Block
 from .exceptions import SyntaxError
 
 
+# pyparsing expands tabs to spaces before parsing unless told otherwise,
+# which shifts every reported location on a line that contains a tab
+# away from the position in the actual source text.
+line_rule.parse_with_tabs()
+
+
 def parse_string(input_string):
     block_start_types = tuple(Block.known_blocks.keys())
     block_end_types = tuple(b.end_stmt
